@@ -321,6 +321,10 @@ pub fn generate(rng: &mut Rng, opts: &GenOpts, tag: &str) -> Value {
             segs.push(RSeg { id, dur, limit, origin: cur, dest });
             cur = dest;
         }
+        // the array order of a route's segments carries no meaning ("order" does)
+        if segs_json.len() >= 2 && rng.chance(1, 5) {
+            rng.shuffle(&mut segs_json);
+        }
         let id = format!("{}.R{}", tag, r);
         routes_json.push(json!({
             "id": id,
@@ -331,8 +335,17 @@ pub fn generate(rng: &mut Rng, opts: &GenOpts, tag: &str) -> Value {
     }
 
     let ndep = rng.usize(1, opts.max_departures.max(1));
-    let window_start = DAY0 + rng.range(0, 8) * 3600;
-    let window_len: i64 = if ndep > 12 { 18 * 3600 } else { rng.range(2, 14) * 3600 };
+    // a quarter of the instances start on another calendar day (leap day ahead, turn of the
+    // year / century, beyond 2038); one in twelve spans several days
+    let day0: i64 = if rng.chance(1, 4) { *rng.pick(&[19781i64, 19722, 20147, 11015, 24854, 47480]) * 86400 } else { DAY0 };
+    let window_start = day0 + rng.range(0, 8) * 3600;
+    let window_len: i64 = if rng.chance(1, 12) {
+        rng.range(30, 100) * 3600
+    } else if ndep > 12 {
+        18 * 3600
+    } else {
+        rng.range(2, 14) * 3600
+    };
     // ---------------------------------------------------------------- maintenance
     let with_slots = opts.force_slots
         || opts.rotation_rich
@@ -558,6 +571,11 @@ pub fn generate(rng: &mut Rng, opts: &GenOpts, tag: &str) -> Value {
                             a.insert("capacity".into(), Value::Null);
                         }
                         allowed.push(Value::Object(a));
+                    }
+                    if rng.chance(1, 12) {
+                        // a depot that admits no type at all
+                        allowed.clear();
+                        sum_type_caps = 0;
                     }
                     let capacity = if opts.decoupled_depots { sum_type_caps } else { capacity };
                     v.push(json!({
